@@ -236,6 +236,8 @@ func runC05(c *an.Ctx) {
 
 	// --- C05.f
 	checkNoDroppedRequest(c, "C05.f", s)
+	// contiguity across a partial answer: the follow-up request continues exactly after the last received header
+	checkRemainderRequest(c, "C05.f", s)
 }
 
 // lessAscendingByHeight: the sort.Slice less function is `hs[i].Height() < hs[j].Height()`.
